@@ -72,6 +72,38 @@ add("C06", "exploration",
     "conditioning guard; bound 200*epsrel*scale for two truncated runs",
     "DESIGN.md 3/C06")
 
+add("C09", "exploration",
+    "differential runtime monitor + exact-quadratic reference + offline Heun "
+    "trace specification over recorded field_eom events",
+    "MeanFieldTempo and compute_dynamics_with_field (PT-TEMPO tensors) are "
+    "compared on states and field at every time for 1-3 systems, non-zero "
+    "start times and both record_all settings; linear-in-t field equations "
+    "must give the exact quadratic; every recorded evaluation of the field "
+    "equation must fit the Heun pattern derived from the returned fields; "
+    "field-independent systems must equal plain Tempo.",
+    "conditioning guard; bound 200*epsrel*scale", "DESIGN.md 3/C09")
+add("C11", "exploration",
+    "runtime reference-model monitor (Gibbs closed forms), metamorphic phase "
+    "covariance, history monitor over repeated compute()",
+    "Gibbs states are compared with the closed form for commuting models at "
+    "n_steps 2..100 and temperatures wc/40..3wc, with exp(-H/T)/Z at zero "
+    "and weak coupling for complex Hermitian H, under diagonal-phase "
+    "rotations at finite coupling, for physicality, and across histories of "
+    "repeated compute()/get_state()/get_dynamics().",
+    "independent quadrature of the reorganisation energy; truncation errors "
+    "accumulate ~n_steps^2, bound scaled accordingly", "DESIGN.md 3/C11")
+add("C15", "exploration",
+    "metamorphic runtime monitor (shifted time origin) + trace comparison of "
+    "recorded callable argument times",
+    "Every method is run with (start, f(t)) and (start+tau, f(t-tau)) for "
+    "positive/negative/non-multiple shifts; states, fields and correlations "
+    "must agree, reported times must be shifted by tau to a few ulp, and the "
+    "argument times recorded by probes on H, gamma, A and the field equation "
+    "must be the shifted ones; float control and correlation times included.",
+    "tensor-network methods compared at 100*epsrel*scale (truncation "
+    "decisions may differ between two runs), exact methods at 1e-9",
+    "DESIGN.md 3/C15")
+
 NOT_APPLICABLE = []
 
 
